@@ -167,10 +167,10 @@ def tokenise(report):
     tail = [l for l in lines[k:] if l.strip() != ""]
     t["summary"] = None
     if t["missing"] is None:
-        srow = [l for l in tail if re.match(r"^ {5} ", l) and re.search(NUM, l)]
-        if len(srow) != 1:
-            raise Layout("expected exactly one summary row, found %d" % len(srow))
-        t["summary"] = summary_tokens(srow[0], widths)
+        # the first non-blank line after the table rows
+        if not tail or not tail[0].startswith("      "):
+            raise Layout("summary row not found after the table")
+        t["summary"] = summary_tokens(tail[0], widths)
     # LCD list
     lcd = []
     for l in report[j + 1:].split("\n")[2:]:
